@@ -5,6 +5,8 @@ use super::*;
 pub(crate) struct Stepped {
     pub accept: Accept,
     pub sockets: Box<[ServerSocketInfo]>,
+    /// a second poller watching the accept loop's epoll fd: tells whether `poll` would return at once
+    probe: Poll,
 }
 
 pub(crate) struct AcceptSnap {
@@ -28,12 +30,38 @@ impl Stepped {
         srv: ServerHandle,
     ) -> io::Result<Self> {
         let (accept, sockets) = Accept::new_with_sockets(poll, waker_queue, sockets, handles, srv)?;
-        Ok(Stepped { accept, sockets })
+        let probe = Poll::new()?;
+        {
+            use std::os::fd::AsRawFd;
+            let fd = accept.poll.as_raw_fd();
+            probe
+                .registry()
+                .register(&mut mio::unix::SourceFd(&fd), MioToken(0), Interest::READABLE)?;
+        }
+        Ok(Stepped { accept, sockets, probe })
     }
 
     /// One iteration of the real `poll_with` loop (it returns at the stepped() hook, or on Stop).
     pub(crate) fn iterate(&mut self) {
         self.accept.poll_with(&mut self.sockets)
+    }
+
+    /// Would the accept loop's `poll` return immediately (a readiness event or a waker event is pending)?
+    /// An epoll fd is itself readable while it has ready events; re-registering re-arms the edge.
+    pub(crate) fn has_pending_events(&mut self) -> bool {
+        use std::os::fd::AsRawFd;
+        let fd = self.accept.poll.as_raw_fd();
+        if self
+            .probe
+            .registry()
+            .reregister(&mut mio::unix::SourceFd(&fd), MioToken(0), Interest::READABLE)
+            .is_err()
+        {
+            return true;
+        }
+        let mut ev = mio::Events::with_capacity(4);
+        let _ = self.probe.poll(&mut ev, Some(Duration::from_millis(0)));
+        !ev.is_empty()
     }
 
     pub(crate) fn snapshot(&self, nworkers: usize) -> AcceptSnap {
